@@ -302,7 +302,15 @@ def clause_f(ctx, P):
                "no write of DnsOutgoing.multicast on the legacy-unicast branch of handle_query")
 
 
+def clause_g(ctx, P):
+    """right values over rename histories: the records built to answer a question carry the names the service was
+    renamed to (same F4 rule as C08d, restricted to the two answer builders)"""
+    n = f4.check_rename_taint(ctx, P, "C06g", only=lambda s: s.fn.short in ("add_answer_with_additionals", "add_answer_of_service"))
+    ctx.floor("C06g.F4.rename-args", n, 8, "renamable name arguments in the answer builders")
+
+
 def run(ctx, P):
+    clause_g(ctx, P)
     clause_a(ctx, P)
     clause_bc(ctx, P)
     clause_d(ctx, P)
